@@ -52,6 +52,7 @@ type Report struct {
 	SolverTime    time.Duration
 	Wall          time.Duration
 	Functions     map[string]int // function -> calls (union over workers)
+	Stubbed       []string       // functions replaced by harness stubs
 	Complete      bool           // work list exhausted within limits
 	MaxDepth      int
 }
@@ -176,6 +177,9 @@ func Explore(prog *ssa.Program, fn *ssa.Function, cfg *Config, opt Options) (*Re
 		rep.SolverTime += st.SolverTime
 		for f, n := range in.called {
 			rep.Functions[f.String()] += n
+		}
+		for f := range in.stubbed {
+			rep.Stubbed = append(rep.Stubbed, f)
 		}
 		in.sess.Close()
 	}
